@@ -1272,7 +1272,16 @@ def _parse_header(line: str) -> tuple[str, dict[str, str]]:
             name = p[:i].strip().lower()
             value = p[i + 1 :].strip()
             params.append((name, native_str(value)))
-    decoded_params = email.utils.decode_params(params)
+    try:
+        decoded_params = email.utils.decode_params(params)
+    except (TypeError, ValueError):
+        # decode_params raises on malformed RFC 2231 continuations: TypeError
+        # when one parameter is given both with and without an index
+        # ("x*=a; x*0=b": it sorts None against int) and ValueError when an
+        # index has more digits than int() accepts.  This function must not
+        # raise on hostile input, so take the parameters as written, without
+        # any RFC 2231 processing.
+        decoded_params = list(params)
     decoded_params.pop(0)  # get rid of the dummy again
     pdict = {}
     for name, decoded_value in decoded_params:
@@ -1285,7 +1294,16 @@ def _parse_header(line: str) -> tuple[str, dict[str, str]]:
         # For a plain value collapse_rfc2231_value removes the quoting added
         # by decode_params, exactly once: a value that itself starts and ends
         # with a double quote (sent as "\"x\"") keeps those quotes.
-        pdict[name] = email.utils.collapse_rfc2231_value(decoded_value)
+        try:
+            pdict[name] = email.utils.collapse_rfc2231_value(decoded_value)
+        except ValueError:
+            # The charset of an extended value is passed to str() and may
+            # name any Python codec; some raise even with errors="replace"
+            # (UnicodeError from "undefined", "idna" or "punycode", ValueError
+            # for a NUL in the name).  Treat those like a charset that is not
+            # a known codec, for which collapse_rfc2231_value returns the
+            # undecoded text.
+            pdict[name] = email.utils.unquote(decoded_value[2])
     return key, pdict
 
 
